@@ -31,6 +31,10 @@ def float_pool(rng, ebits, mbits, n_rand, dense):
             for f in fr:
                 out.append(mk(s, e, f))
         out += [mk(s, emax, 0), mk(s, 0, 0), mk(s, emax, 1 << (mbits - 1))]
+    # floats at which a short decimal literal read with two roundings (decimal -> double -> float) lands on the neighbour
+    if W == 32:
+        import hardfloat
+        out += hardfloat.pool()
     # decimal-printing stress: values needing all 9 / 17 significant digits
     for _ in range(n_rand):
         out.append(rng.getrandbits(W))
